@@ -65,6 +65,8 @@ mod remote_actor;
 
 pub mod macros;
 pub mod node;
+#[cfg(ractor_verif)]
+pub mod verif;
 
 /// Node's are representing by an integer id
 pub type NodeId = u64;
